@@ -1,12 +1,16 @@
 (* Properties_C07.v — FEN round trip is lossless and set_fen does not depend on the object's past.
-   Proved for EVERY previous object state, EVERY string and both modes: set_fen on a used object yields exactly
-   the observables of a fresh object (placement, clocks, ep, hash, rights, rook squares of held rights, side),
-   with an empty history.  [obs_eq] leaves out only the castling-rook slot of a right that is NOT held (clear()
-   does not reset it; no query other than get_castling_square of an un-held right can see it).
-   STATUS: PARTIAL — the round-trip clause (a fresh Position built from get_fen(p) is observably identical to p)
-   needs the FEN codec theorems of C06 and is decided by the correspondence.  Statements only. *)
+   STATUS: FULL (for the model M).
+   ROUND TRIP (C07_round_trip, C07_round_trip_observables): for EVERY position p whose abstraction is legal-consistent
+   (any history, any clocks — the model's clocks are unbounded), the fresh position q built from get_fen(p, mode) has
+   abs q = abs p (placement, side, the four rights with their rook squares, ep square, both clocks), satisfies the
+   representation invariant, has a consistent hash and an empty history, and get_fen of it is the same string; when p
+   itself is well-formed with a consistent hash, q equals p field by field — bitboards, flags, rook squares of the held
+   rights, ep, clocks, HASH — so every query (legal moves, …) answers the same; only the history differs.
+   For EVERY previous object state, EVERY string and both modes: set_fen on a used object yields exactly the
+   observables of a fresh object, with an empty history ([obs_eq] leaves out only the castling-rook slot of a right
+   that is NOT held: clear() does not reset it, no query other than get_castling_square of an un-held right sees it). *)
 From Coq Require Import NArith List Bool.
-From LC Require Import Bits Types BitboardModel MoveModel ZobristModel PositionModel FenModel FenFacts.
+From LC Require Import Bits Types BitboardModel MoveModel ZobristModel PositionModel FenModel FenFacts Spec.Rules Refine.Abs FenRoundTrip.
 Import ListNotations.
 Local Open Scope N_scope.
 
@@ -17,4 +21,16 @@ Proof. exact set_fen_body_forgets. Qed.
 Theorem C07_history_empty : forall K old fen dfrc, history (set_fen_on K old fen dfrc) = [].
 Proof. exact set_fen_history_empty. Qed.
 
+Theorem C07_round_trip : forall K dfrc p, legal_consistent dfrc (abs p) = true ->
+  let q := set_fen K (get_fen p dfrc) dfrc in
+  abs q = abs p /\ wf q = true /\ hash q = calculate_hash K q /\ history q = [] /\ get_fen q dfrc = get_fen p dfrc.
+Proof. exact fen_round_trip. Qed.
+Theorem C07_round_trip_observables : forall K dfrc p, wf p = true -> hash p = calculate_hash K p -> legal_consistent dfrc (abs p) = true ->
+  let q := set_fen K (get_fen p dfrc) dfrc in
+  (brd q = brd p /\ to_move q = to_move p /\ c0 q = c0 p /\ c1 q = c1 p /\ c2 q = c2 p /\ c3 q = c3 p /\
+   (c0 p = true -> r0 q = r0 p) /\ (c1 p = true -> r1 q = r1 p) /\ (c2 p = true -> r2 q = r2 p) /\ (c3 p = true -> r3 q = r3 p) /\
+   ep q = ep p /\ halfmove q = halfmove p /\ fullmove q = fullmove p /\ hash q = hash p) /\ history q = [].
+Proof. exact fen_round_trip_obs. Qed.
+
+Print Assumptions C07_round_trip. Print Assumptions C07_round_trip_observables.
 Print Assumptions C07_set_fen_forgets. Print Assumptions C07_set_fen_any_two_pasts. Print Assumptions C07_history_empty.
